@@ -91,6 +91,7 @@ def generate(tp: Tape, tier: str):
     prog = G.generate_program(tp, max_steps=3, min_steps=1, inputs=inputs, only_ops=MEM_OPS, max_outputs=1,
                               size_cap=3_000_000, result_cap=6_000_000, allow_zero=False)
     raw = tp.coin(1, 8)
+    original = __import__("copy").deepcopy(prog)
     if not raw:
         # avoidance transforms for the two known findings (kept raw in 1/8 of the runs)
         for st in prog["steps"]:
@@ -103,6 +104,7 @@ def generate(tp: Tape, tier: str):
             prog = G.remove_steps(prog, []) or prog
         if not G.valid_program(prog):
             raw = True
+            prog = original
     # chunk parameters drawn by the general generator would make thousands of tiny tasks: keep chunks MB-sized
     sh = G.shadow_of(prog)
     for st in prog["steps"]:
@@ -110,7 +112,7 @@ def generate(tp: Tape, tier: str):
             shp = sh.values[st["args"][0]].shape
             st["p"]["chunks"] = [max(1, -(-s // tp.choice([1, 1, 2, 3]))) for s in shp]
             st["p"].pop("min_mem", None)
-    avoid_fused_argred = (not raw) and any(st["op"] == "argred" for st in prog["steps"])
+    avoid_fused_argred = (not raw) and any(st["op"] in ("argred", "roll") for st in prog["steps"])
     case = dict(kind="prog", prog=prog, profile="memory", raw=raw,
                 exec=dict(kind=tp.choice(["single", "threads", "processes"]), max_workers=2),
                 sim=dict(mode="atomic", dur="zero"),
